@@ -58,9 +58,92 @@ var verifRegions = []verifRegion{
 	{"schema prefix forms", "C15-schema-prefix-form", regexp.MustCompile(`^` + vWS + `*` + vKW + vWS + `+((?i:main)` + vWS + `+\.` + vWS + `*|(?i:main)\.` + vWS + `+|"(?i:main)"\.|\[(?i:main)\]\.)` + vAssign(`(?i:synchronous)`, vSY) + vEnd)},
 }
 
+// ---- general form (C15b): every way SQLite's tokenizer lets the same statement be written.
+//   text    := [first-statement ;] seps PRAGMA target assign end
+//   target  := name | schema seps . seps name          (a bare token directly after PRAGMA needs
+//                                                       at least one separator, a quoted one none)
+//   name    := bare | "quoted" | [quoted] | `quoted` | 'quoted'      (case-insensitive)
+//   assign  := seps = seps value | seps ( seps value seps )
+//   seps    := up to one (quick) / two (thorough) of: one white-space byte, /*..*/ , --..\n
+const vSepG = `(` + vWS + `|/\*[a-z ]{0,2}\*/|--[a-z ]{0,2}\n)`
+const vSchemB = `(?i:main)`
+
+// separators per position: at most one in the quick tier, at most two in the thorough tier
+func vSepsOf(min string) string {
+	if verifTier() >= 1 {
+		return vSepG + `{` + min + `,2}`
+	}
+	return vSepG + `{` + min + `,1}`
+}
+
+func vQuoted(n string) string {
+	return `("` + n + `"|\[` + n + `\]|` + "`" + n + "`" + `|'` + n + `')`
+}
+
+// vTarget: the (optionally schema-qualified) pragma name as it may follow the PRAGMA keyword;
+// alt selects one of the four shapes (bare / quoted name, bare / quoted schema).
+func vTarget(name string, alt int) string {
+	vSeps, vSeps1 := vSepsOf("0"), vSepsOf("1")
+	n := `(?i:` + name + `)`
+	anyName := `(` + n + `|` + vQuoted(n) + `)`
+	dot := vSeps + `\.` + vSeps
+	switch alt {
+	case 0:
+		return vSeps1 + n
+	case 1:
+		return vSeps + vQuoted(n)
+	case 2:
+		return vSeps1 + vSchemB + dot + anyName
+	}
+	return vSeps + vQuoted(vSchemB) + dot + anyName
+}
+
+// vTail: what follows the name; alt 0: `= value`, alt 1: `( value )`.
+func vTail(val string, alt int) string {
+	vSeps := vSepsOf("0")
+	if alt == 0 {
+		return vSeps + `=` + vSeps + val + vEnd
+	}
+	return vSeps + `\(` + vSeps + val + vSeps + `\)` + vEnd
+}
+
+type verifGen struct{ name, val string }
+
+// the five guarded pragmas with values that change the setting; wal_checkpoint twice: bare and with a mode
+var verifGens = []verifGen{
+	{`journal_mode`, vJM}, {`synchronous`, vSY}, {`query_only`, vQO}, {`wal_autocheckpoint`, vAC},
+	{`wal_checkpoint`, ""}, {`wal_checkpoint`, `(?i:PASSIVE|FULL|RESTART|TRUNCATE)`},
+}
+
+// VerifC15General: one path per (pragma, first statement or not, target shape, assignment shape);
+// the union of the sub-regions is the general form above. The case split only keeps each solver
+// query small; nothing is sampled.
+func VerifC15General() {
+	g := verifGens[verifChoice("pragma", len(verifGens))]
+	vSeps := vSepsOf("0")
+	pre := ""
+	if verifChoice("later-statement", 2) == 1 {
+		pre = `((?i:SELECT) (1|';'))?` + vSeps + `;`
+	}
+	target := vTarget(g.name, verifChoice("target", 4))
+	var tail string
+	switch {
+	case g.val == "":
+		tail = vEnd
+	case g.name == `wal_checkpoint`:
+		tail = vTail(g.val, 1)
+	default:
+		tail = vTail(g.val, verifChoice("assign", 2))
+	}
+	re := regexp.MustCompile(`^` + pre + vSeps + vKW + target + tail)
+	verifC15Check(verifRegion{"general " + g.name, "", re}, verifString("sql", 0)) // no length bound (the regions bound everything but trailing white space)
+}
+
 func verifC15Region(k int) {
-	r := verifRegions[k]
-	s := verifString("sql", 44)
+	verifC15Check(verifRegions[k], verifString("sql", 44))
+}
+
+func verifC15Check(r verifRegion, s string) {
 	// printable ASCII and SQLite white space only
 	verifAssume(verifASCII.MatchString(s))
 	verifAssume(r.re.MatchString(s))
